@@ -43,6 +43,22 @@ def gen_cases(tier, seed):
                 pats.append('all-single')
             cases.append({'fn': 'make', 'content': content, 'kw': kw, 'patterns': pats,
                           'fseed': rng.randrange(1 << 30), 'layout': '%s|%s' % (v, lv)})
+    # data that looks like padding: runs of EC / 11 / 00 bytes in multi-block symbols that also contain real padding blocks
+    for (v, lv) in layouts():
+        if isinstance(v, str) or len(qr.block_layout(v, lv)) < 3:
+            continue
+        if tier == 'quick' and rng.random() < 0.75:
+            continue
+        n = gen.max_chars(v, lv, 'byte')
+        lay = qr.block_layout(v, lv)
+        d0 = lay[0][1]
+        for trial in range(2 if tier == 'quick' else 6):
+            body = bytearray()
+            while len(body) < min(n // 2, 3 * d0):
+                body += bytes([rng.choice([0x11, 0xEC, 0x11, 0xEC, 0x00, 0x41])]) * rng.choice([1, 2, d0 - 1, d0, d0 + 1, 2 * d0])
+            content = bytes(body[:max(1, min(n // 2, 3 * d0))])
+            cases.append({'fn': 'make', 'content': content, 'kw': {'version': v, 'error': lv, 'boost_error': False, 'mode': 'byte'},
+                          'patterns': ['max-weight', 'uniform'], 'fseed': rng.randrange(1 << 30), 'layout': '%s|%s' % (v, lv)})
     rng.shuffle(cases)
     return cases
 
